@@ -1374,6 +1374,9 @@ func lemmaUpdateThenNew(s *bufferSlice) {
 //@   at call? (*linkedBuffer).isFromShareMemory#0 ghost notShm := !r0
 //@   at call? (*Stream).writeFallback#0 hint[C07] s.inFallbackState
 //@   at call? (*Stream).writeFallback#0 ghost fellBack := true
+//@   ghost var stSeen int = 0 - 1
+//@   at call? (*Stream).getStreamState#0 ghost stSeen := r0
+//@   exit[C10] stSeen >= 0 && stSeen != 0 ==> r0 == ErrStreamClosed && !putTried && !fellBack && recycled   // a stream that is no longer open (closed locally, or half-closed by the peer) sends nothing any more: closed-stream error, the data given back
 //@   exit[C05] putOK ==> woke                                   // a successful enqueue is always followed by the wake-up attempt
 //@   exit[C09] r0 != nil && !fellBack ==> recycled              // every error exit gives the send buffer back
 //@   exit[C07] (old(s.inFallbackState) || notShm) ==> !putTried // once a stream used the socket path it never uses the queue again (ordering)
